@@ -111,11 +111,21 @@ def _work(arg):
     except env.HarnessError as e:
         signal.alarm(0)
         return idx, {'harness_error': 'task %r: %s' % (task, e)}
-    except Exception:  # noqa
+    except Exception as e:  # noqa
         signal.alarm(0)
+        # an exception raised INSIDE the library under test while the harness was reading or driving a value is a
+        # finding about the library (with the case being processed), not a harness failure
+        tb = traceback.extract_tb(e.__traceback__)
+        if tb and os.path.abspath(tb[-1].filename).startswith(os.path.abspath(env.SRC) + os.sep) and isinstance(acc.current, dict):
+            acc.violation('library-exception', acc.current, 'the library raised %s: %s (at %s:%d) while this case was being checked'
+                          % (type(e).__name__, e, os.path.basename(tb[-1].filename), tb[-1].lineno), sig='library-exception:' + type(e).__name__)
+            acc.caps.append('task %d aborted by a library exception' % idx)
+            return idx, acc.export()
         return idx, {'harness_error': 'task %r crashed:\n%s' % (task, traceback.format_exc())}
     finally:
         signal.alarm(0)
+    for v in acc.violations:
+        v['task'] = idx
     return idx, acc.export()
 
 
@@ -181,11 +191,55 @@ def write_replay(pid, v):
     d = os.path.join(out_root(), 'replays', pid)
     os.makedirs(d, exist_ok=True)
     body = {'property': pid, 'clause': v['clause'], 'case': v['case'], 'detail': v['detail']}
+    if v.get('task_replay'):
+        body['task_replay'] = v['task_replay']
     dig = hashlib.blake2b(json.dumps(body, sort_keys=True, default=repr).encode(), digest_size=6).hexdigest()
     path = os.path.join(d, dig + '.json')
     with open(path, 'w') as f:
         json.dump(body, f, indent=1, default=repr)
     return path
+
+
+def run_single_task(pid, task, tier, seed, clause, case):
+    """Run one task alone in this (fresh) process; True when the violation (clause, case) occurs."""
+    global VIOL_CAP_PER_TASK
+    mod = load_prop(pid)
+    os.environ['VERIF_TIER'] = tier
+    acc = Acc(seed)
+    acc._per_sig = Counter()
+    hit = [False]
+    orig = acc.violation
+
+    def watch(cl, cs, detail, sig=None):
+        if cl == clause and json.dumps(cs, sort_keys=True, default=repr) == json.dumps(case, sort_keys=True, default=repr):
+            hit[0] = True
+        orig(cl, cs, detail, sig)
+    acc.violation = watch
+    try:
+        mod.run_task(task, acc)
+    except env.HarnessError:
+        raise
+    except Exception:  # noqa
+        pass
+    return hit[0]
+
+
+def rerun_task_confirms(pid, task, tier, seed, v):
+    import subprocess
+    import tempfile
+    body = {'property': pid, 'clause': v['clause'], 'case': v['case'], 'detail': '', 'task_replay': {'task': task, 'tier': tier, 'seed': seed}}
+    with tempfile.NamedTemporaryFile('w', suffix='.json', delete=False) as f:
+        json.dump(body, f, default=repr)
+        path = f.name
+    try:
+        rcs = []
+        for _ in range(2):
+            p = subprocess.run([sys.executable, '-m', 'mc.main', '--replay', path], cwd=env.VERIF, stdout=subprocess.PIPE,
+                               stderr=subprocess.STDOUT, env=dict(os.environ, PYTHONHASHSEED='0'), timeout=3000)
+            rcs.append(p.returncode)
+        return rcs == [1, 1]
+    finally:
+        os.unlink(path)
 
 
 def run_check(pid, tier, seed, jobs=None, budget=None):
@@ -261,15 +315,35 @@ def run_check(pid, tier, seed, jobs=None, budget=None):
         if len(reported) >= REPORT_CAP:
             continue
         # confirm by replaying the single case on fresh objects, twice
-        if v['clause'] != 'timeout':
+        if v['clause'] == 'library-exception':
+            def _rp():
+                try:
+                    return sorted(c for c, _ in mod.replay(v['case'])) or ['(none)']
+                except env.HarnessError:
+                    raise
+                except Exception as ex:  # noqa
+                    return ['raises ' + type(ex).__name__]
+            c1, c2 = _rp(), _rp()
+            if c1 != c2 or c1 == ['(none)']:
+                sys.stdout.write('HARNESS-ERROR property=%s library exception did not reproduce on replay: %s / %s\n'
+                                 % (pid, json.dumps(v, default=repr)[:600], c1))
+                return 2
+        elif v['clause'] != 'timeout':
             r1 = mod.replay(v['case'])
             r2 = mod.replay(v['case'])
             c1 = sorted(c for c, _ in r1)
             c2 = sorted(c for c, _ in r2)
             if c1 != c2 or v['clause'] not in c1:
-                sys.stdout.write('HARNESS-ERROR property=%s violation did not reproduce on replay: %s / %s\n'
-                                 % (pid, json.dumps(v, default=repr)[:600], c1))
-                return 2
+                # not reproducible from the single case: the failure may depend on state the library keeps between
+                # calls (a cache).  Re-run the whole task that found it, alone, in a fresh process; if the same
+                # violation recurs, the task is its (deterministic) history and becomes the replay artefact.
+                if 'task' in v and rerun_task_confirms(pid, tasks[v['task']], tier, seed, v):
+                    v['task_replay'] = {'task': tasks[v['task']], 'tier': tier, 'seed': seed}
+                    v['detail'] += ' [history-dependent: reproduces only after the preceding calls of its task; replay re-runs the task]'
+                else:
+                    sys.stdout.write('HARNESS-ERROR property=%s violation did not reproduce on replay: %s / %s\n'
+                                     % (pid, json.dumps(v, default=repr)[:600], c1))
+                    return 2
         reported.append(v)
     for v in reported:
         path = write_replay(pid, v)
@@ -328,7 +402,20 @@ def replay_file(path):
     with open(path) as f:
         body = json.load(f)
     mod = load_prop(body['property'])
-    res = mod.replay(body['case'])
+    if body.get('task_replay'):
+        tr = body['task_replay']
+        if run_single_task(body['property'], tr['task'], tr['tier'], tr['seed'], body['clause'], body['case']):
+            sys.stdout.write('still violated after re-running its task: clause=%s\n' % body['clause'])
+            sys.stdout.write('VIOLATION property=%s replay=%s\n' % (body['property'], path))
+            return 1
+        sys.stdout.write('replay of %s: clause %s no longer violated\n' % (path, body['clause']))
+        return 0
+    try:
+        res = mod.replay(body['case'])
+    except env.HarnessError:
+        raise
+    except Exception as ex:  # noqa
+        res = [('library-exception', 'replay raised %s: %s' % (type(ex).__name__, ex))]
     for c, d in res:
         sys.stdout.write('still violated: clause=%s %s\n' % (c, d[:600]))
     if any(c == body['clause'] for c, _ in res):
